@@ -84,7 +84,7 @@ PROPS = {
                 'results built inside closures passed to Option::map (float arms of quotient / %) are opaque to Verus',
                 'the variadic procedures +, * and - are verified ((- x y ...) is x minus the sum of all the others; a non-number FIRST argument of - is silently skipped by the code -- (- (quote a) 1) answers 1 -- which no claimed property speaks about): for + and * an exact answer is exactly the sum / product of ALL arguments, each of which then was exact (args_sum / args_prod, step lemmas); abs / floor / ceiling / truncate / numerator / denominator hand their argument to the Number operation of the same name and return its answer; min / max / the comparison procedures are not under contract (provided trait methods `<`, `>` cannot be specified in this Verus; num_comp takes a closure)', 'divide / quotient / remainder also carry value postconditions over their two (or one) arguments in the right order; the procedures divide / quotient / remainder / expt (vm/builtin/number.rs) are verified to establish the preconditions of the Number operations they call (non-zero divisor, integer operands); pop_number / pop_integer are verified; expt also carries a value postcondition (x^e for the integer e that was passed); Number::numerator / denominator are verified for exact arguments (a stored rational is in lowest terms); Number::is_zero / to_u32 carry assumed contracts (is_zero is checked by Kani harnesses under C09); the modulo procedure is under contract for a first argument that is not a float (Number::modulo needs that: closure results in the float arms are opaque)',
             ]},
-    'C03': {'groups': ['heap'], 'search': 'search_heap',
+    'C03': {'groups': ['heap', 'stack'], 'search': 'search_heap',
             'kani': [
                 {'harness': 'gc_state_from_u8', 'file': 'src/vm/gc.rs', 'kind': 'complete', 'what': 'State::from(u8) is the inverse of State::bits on 0..=2 (all bytes)'},
                 {'harness': 'gc_map_get', 'file': 'src/vm/gc.rs', 'kind': 'complete', 'what': 'Map::get returns the 2-bit field of the addressed cell for every byte content and index (map of 3 bytes), None past capacity: discharges the contract Verus assumes for Map::get'},
@@ -95,7 +95,7 @@ PROPS = {
                 'termination of mark / mark_vcell is not proved (exec_allows_no_decreases_clause)',
                 'mark_continuation, Heap::grow, Map::get/new/resize: contracts assumed on the Verus side (Kani harnesses listed cover Map::get completely, new/resize bounded)',
                 'payload views vector_view/env_view and the child relations cont_kid/lambda_kid/vkid are uninterpreted; axiom_vkids defines vkid by cases (trusted)',
-                'interior-mutable payloads (Vector, LexicalEnvironment) are treated as values: nothing mutates them during a collection',
+                'interior-mutable payloads (Vector, LexicalEnvironment) are treated as values: nothing mutates them during a collection', 'root enumeration: run_gc itself is not ingestible (for_each closures over opaque iterators), but the two stack iterators it and mark_continuation consume are under contract (group stack): Stack::iter_to_sp yields exactly the live slots 0..=sp, Stack::iter every slot (stated over the prophetic `remaining()` sequence of the returned opaque iterator); that run_gc / mark_continuation visit every element the iterator yields, and the other roots (globals, acc, ip, ep), are not decided',
                 'no Symbol cell is written except through put/maybe_put (get_at_index_mut is outside the contract)',
                 'String keys obey vstd\'s hash-map key model (axiom_string_key); Rc::deref / as_ref / From<&String> specs assumed',
             ]},
